@@ -54,3 +54,11 @@ Theorem C01_hub_no_dial_without_registration :
     ~ In k (dials_of (snd (hrun C h ls))) /\ may_dial (get (fst (hrun C h ls)) k) = false.
 Proof. exact no_grant_no_dial. Qed.
 Print Assumptions C01_hub_no_dial_without_registration.
+
+(* auto-accept is what the user set last: SetAutoAccept(b), in any hub state (started or not,
+   shut down or not), makes the flag b - and nothing else ever changes it *)
+Theorem C01_hub_auto_accept_is_what_the_user_set :
+  forall (C : cfg) (h : hub) (b : bool),
+    h_auto (fst (hstep C h (LSetAuto b))) = b /\ snd (hstep C h (LSetAuto b)) = [OAuto b].
+Proof. intros C h b. split; reflexivity. Qed.
+Print Assumptions C01_hub_auto_accept_is_what_the_user_set.
